@@ -340,7 +340,7 @@ impl Engine for LexSim {
 
     fn runs(&self, tier: Tier) -> u64 {
         match tier {
-            Tier::Quick => 2_000_000,
+            Tier::Quick => 8_000_000,
             Tier::Thorough => 100_000_000,
         }
     }
